@@ -3,6 +3,7 @@ package interp
 // Symbolic-aware versions of the interpreter's primitive operations.
 
 import (
+	"encoding/base64"
 	"fmt"
 	"go/token"
 	"go/types"
@@ -18,6 +19,8 @@ type symStr struct {
 	b      []value // each element is uint8 or symInt{Uint8}
 	opaque string  // non-empty: display text of a not yet rendered string (see lazy)
 	lazy   func() []value // renders the bytes on first inspection (may fork to make symbolic integers concrete)
+	b64src []value        // non-nil: this string is the base64 encoding (b64enc) of these bytes, not yet rendered
+	b64enc *base64.Encoding
 }
 
 // force renders a lazily formatted string.
